@@ -152,9 +152,11 @@ def swap(ctx, pin):
     k.files["/proc/meminfo"] = lines
     unit = ctx.int("mem_unit", 1, 4096)
     k.sysinfo = (1, 2, 3, 4, tot, fre, unit)
-    vm = ctx.choice("vmstat", ["both", "no-file", "no-pswpin", "no-pswpout"])
+    vm = ctx.choice("vmstat", ["both", "no-file", "no-pswpin", "no-pswpout", "EACCES", "EIO"])      # absent, incomplete, or present but not to be opened
     pin_, pout = ctx.int("pswpin", 0, 2**52), ctx.int("pswpout", 0, 2**52)
-    if vm != "no-file":
+    if vm in ("EACCES", "EIO"):
+        k.files["/proc/vmstat"] = simk.oserr({"EACCES": 13, "EIO": 5}[vm], "/proc/vmstat")
+    elif vm != "no-file":
         body = "nr_free_pages 5\n"
         if vm != "no-pswpin":
             body += f"pswpin {k.num(pin_, True)}\n"
